@@ -36,6 +36,8 @@ pub struct SInterp<'c, K: KeyT> {
     pub out: Outcome,
     /// a destructor panicked: elements / blocks may legitimately be leaked
     leak_ok: bool,
+    /// per set: never given an element or a capacity (C03: it must own no block)
+    pristine: [bool; 2],
 }
 
 fn plan_h(case: &Case, prefix: &str) -> Plan {
@@ -69,6 +71,7 @@ where
             labels: 0,
             out: Outcome::default(),
             leak_ok: false,
+            pristine: [case.h("cap") == 0, case.h("b_cap") == 0],
         }
     }
 
@@ -298,6 +301,9 @@ where
                 let s = &mut self.slots[cur];
                 let selected = s.model.iter().filter(|e| !keep(e.0, salt, pct)).count();
                 let take = frac_to(a[2], selected + 1);
+                if selected > 0 && selected < s.model.len() && take > 0 && take < selected {
+                    self.labels |= dump::L_EXTRACT_CUT;
+                }
                 let mut visited = Vec::new();
                 let mut yielded = Vec::new();
                 {
@@ -327,6 +333,9 @@ where
                 let total = s.model.len();
                 let prefix = frac_to(a[0], total);
                 let cont = if a[1] % 2 == 0 { 5 } else { 0 };
+                if prefix > 0 && prefix < total && cont == 5 {
+                    self.labels |= dump::L_DRAIN_CUT;
+                }
                 let size_before = s.set.allocation_size();
                 let want: Vec<(u64, u64)> = s.model.iter().map(|e| (e.0 as u64, e.1 as u64)).collect();
                 s.model.clear();
@@ -358,6 +367,13 @@ where
                 let total = s.model.len();
                 let prefix = frac_to(a[1], total);
                 let want: Vec<(u64, u64)> = s.model.iter().map(|e| (e.0 as u64, e.1 as u64)).collect();
+                if prefix > 0 && prefix < total {
+                    if a[0] % 2 == 0 && matches!(a[2] % 6, 1 | 3) {
+                        self.labels |= dump::L_ITER_CUT;
+                    } else if a[0] % 2 == 1 && a[2] % 6 == 5 {
+                        self.labels |= dump::L_INTOITER_CUT;
+                    }
+                }
                 if a[0] % 2 == 0 {
                     let cont = if a[2] % 6 == 5 { 0 } else { a[2] % 6 };
                     let (got, c) = drive_iter(s.set.iter(), total, prefix, cont, Some(&|i: &hb::hash_set::Iter<'_, K>| i.clone()), "set iter", |k| {
@@ -478,6 +494,37 @@ where
             _ => {}
         }
         Ok(())
+    }
+
+    /// Operations that cannot hand a set an element or a capacity keep it `pristine`; see the map
+    /// interpreter. `cur` is the slot the operation ran on.
+    fn track_pristine(&mut self, op: &Op, cur: usize, other_was_empty: bool, cur_was_empty: bool) {
+        let other = cur ^ 1;
+        let a = op.a;
+        match op.code {
+            ops::REMOVE | ops::GET | ops::SWAP | ops::ALGEBRA | ops::PREDICATES | ops::OPERATORS | ops::RETAIN | ops::EXTRACT_IF | ops::DRAIN | ops::CLEAR
+            | ops::SHRINK_TO_FIT | ops::REMOVE_RUN | ops::FILL_TO_CAPACITY => {}
+            ops::EXTEND if a[1] % 25 == 0 => {}
+            ops::INSERT_RANGE if a[1] % 25 == 0 => {}
+            ops::RESERVE if a[0] % 97 == 0 => {}
+            // into_iter replaces the set by a new, never-used one
+            ops::ITER => {
+                if a[0] % 2 == 1 {
+                    self.pristine[cur] = true;
+                }
+            }
+            // collect() of no elements
+            ops::REBUILD => self.pristine[cur] = cur_was_empty,
+            // |= and ^= insert clones of the other set's elements, &= and -= only remove
+            ops::ASSIGN => {
+                if matches!(a[0] % 4, 0 | 3) && !other_was_empty {
+                    self.pristine[cur] = false;
+                }
+            }
+            ops::CLONE => self.pristine[other] = if a[0] % 2 == 0 { self.pristine[cur] } else { self.pristine[other] && self.pristine[cur] },
+            ops::MIRROR => self.pristine[other] = false,
+            _ => self.pristine[cur] = false,
+        }
     }
 
     fn lookup(&self, si: usize, k: u32) -> Result<(), Bad> {
@@ -749,6 +796,9 @@ where
             2 => &x.set - &y.set,
             _ => &x.set ^ &y.set,
         };
+        if want.is_empty() && x.model.is_empty() && y.model.is_empty() && !Self::dump_of(&r).is_singleton {
+            bad!("C03", "unallocated-collection-owns-block", "operator kind {kind} on two empty sets returned a set that owns a block");
+        }
         let mut got: Vec<u32> = r.iter().map(|k| k.id()).collect();
         got.sort_unstable();
         let w: Vec<u32> = want.iter().copied().collect();
@@ -798,11 +848,14 @@ where
         }
         let mut blocks = 0;
         let _q = Quiet::new();
-        for s in &self.slots {
+        for (si, s) in self.slots.iter().enumerate() {
             let d = Self::dump_of(&s.set);
             d.validate(true)?;
             if !d.is_singleton {
                 blocks += 1;
+                if self.pristine[si] {
+                    bad!("C03", "unallocated-collection-owns-block", "a set that was never given an element or a capacity owns a block of {} buckets", d.buckets());
+                }
             }
             for i in d.full_indices() {
                 let Some(k) = s.set.verif_bucket(i) else {
@@ -846,8 +899,10 @@ where
         let before = Self::dump_of(&self.slots[self.cur].set);
         world::clear_panic_messages();
         let counts0 = world::counts();
+        let (cur0, cur_empty, other_empty) = (self.cur, self.slots[self.cur].model.is_empty(), self.slots[self.cur ^ 1].model.is_empty());
         let r = catch_unwind(AssertUnwindSafe(|| self.exec(op)));
         let counts1 = world::counts();
+        self.track_pristine(op, cur0, other_empty, cur_empty);
         match r {
             Err(payload) => {
                 let msg = world::last_panic_message().unwrap_or_else(|| "<no message>".into());
@@ -897,8 +952,10 @@ where
         if k > 0 {
             world::arm_fault(class, k);
         }
+        let (cur_empty, other_empty) = (self.slots[self.cur].model.is_empty(), self.slots[self.cur ^ 1].model.is_empty());
         let r = catch_unwind(AssertUnwindSafe(|| self.exec(op)));
         let fired = world::disarm_fault();
+        self.track_pristine(op, cur_before, other_empty, cur_empty);
         let relabel = |v: Violation| Violation { property: "C04", kind: format!("after-panic:{}", v.kind), ..v };
         match r {
             Ok(Ok(())) => {
@@ -936,6 +993,7 @@ where
         if class.is_drop() {
             self.leak_ok = true;
         }
+        self.pristine = [false, false];
         let _q = Quiet::new();
         let mk = |kind: &str, detail: String| Violation { property: "C04", kind: kind.to_string(), step, detail };
         if let Some(v) = world::take_violation() {
